@@ -425,7 +425,7 @@ static void bicubicCase(verif::Run& run, int gridKind, int dataKind, int smoothK
                     Vector xy(2); xy[0] = xe; xy[1] = ye;
                     LD gf = mu.empty() ? BF.calcValue(xy) : BF.calcDerivative(dc, xy);
                     if (gh != got || gf != got) wHint = 1;
-                    if (mu.size() >= 2) { Array_<int> rv; for (int k = (int)mu.size() - 1; k >= 0; --k) rv.push_back(mu[k]); if ((LD)S.calcDerivative(rv, Vec2(xe, ye)) != got) wOrd = 1; }
+                    if (mu.size() >= 2) { std::vector<int> pm = mu; std::sort(pm.begin(), pm.end()); do { Array_<int> rv; for (int c2 : pm) rv.push_back(c2); if ((LD)S.calcDerivative(rv, Vec2(xe, ye)) != got) wOrd = 1; } while (std::next_permutation(pm.begin(), pm.end())); }   // every ordering of the multiset
                     if (dataKind == 0) { LD ex = ox + oy == 0 ? surfFn(0, xe, ye) : (ox == 1 && oy == 0) ? -2 + 0.5L * ye : (ox == 0 && oy == 1) ? 0.75L + 0.5L * xe : (ox == 1 && oy == 1) ? 0.5L : 0; wBil = std::max(wBil, std::fabs(got - ex) / (EPS * scale)); }
                 }
                 // fourth pure derivatives vanish
